@@ -35,6 +35,9 @@ SIGS = {
     "own_t": ([("own", "t")], "none"),
     "bor_t": ([("bor", "t")], "none"),
     "own_s": ([("own", "s")], "none"),
+    "bor_w": ([("bor", "w")], "none"),
+    "own_w": ([("own", "w")], "none"),
+    "mk_w": ([], "w"),
     "bor_s": ([("bor", "s")], "none"),
     "mk_t": ([], "t"),
     "mk_s": ([], "s"),
@@ -65,6 +68,20 @@ from guppylang.std.builtins import owned, array
 class S:
     a: qubit
     b: qubit
+
+
+@guppy.struct
+class W:
+    inner: S
+    z: qubit
+
+
+@guppy.declare
+def bor_w(w: W) -> None: ...
+@guppy.declare
+def own_w(w: W @ owned) -> None: ...
+@guppy.declare
+def mk_w() -> W: ...
 
 
 @guppy.struct
@@ -111,7 +128,7 @@ def bor_own(p: qubit, q: qubit @ owned) -> None: ...
 
 '''
 
-PYTY = {"q": "qubit", "t": "tuple[qubit, qubit]", "s": "S", "arr": "array[int, 2]",
+PYTY = {"w": "W", "q": "qubit", "t": "tuple[qubit, qubit]", "s": "S", "arr": "array[int, 2]",
         "int": "int", "bool": "bool", "none": "None"}
 
 
@@ -123,6 +140,8 @@ def leaves_of(name, ty):
         return [(f"{name}[0]", "lin"), (f"{name}[1]", "lin")]
     if ty == "s":
         return [(f"{name}.a", "lin"), (f"{name}.b", "lin")]
+    if ty == "w":       # struct W{inner: S, z: qubit}
+        return [(f"{name}.inner.a", "lin"), (f"{name}.inner.b", "lin"), (f"{name}.z", "lin")]
     if ty == "arr":
         return [(name, "aff")]
     return [(name, "copy")]
@@ -179,7 +198,7 @@ def render(fn):
     """fn = {"name", "params": [(name, ty, mode)], "ret": ty, "body": [stmt]}"""
     ps = []
     for n, ty, mode in fn["params"]:
-        ann = PYTY[ty] + (" @ owned" if mode == "own" and ty in ("q", "t", "s", "arr") else "")
+        ann = PYTY[ty] + (" @ owned" if mode == "own" and ty in ("q", "t", "s", "w", "arr") else "")
         ps.append(f"{n}: {ann}")
     ret = PYTY[fn["ret"]] if fn["ret"] != "tq" else "tuple[qubit, qubit]"
     lines = ["@guppy", f"def {fn['name']}(" + ", ".join(ps) + f") -> {ret}:"]
@@ -203,22 +222,26 @@ class Gen:
         """a place expression of the type whose leaves are (believed) full"""
         cands = []
         for n, t in env.items():
-            if n in self.borrowed and not bor_ok:
-                continue
-            if t == ty and all(l in full for l, _ in leaves_of(n, t)):
+            if t == ty and all(l in full for l, _ in leaves_of(n, t)) and (bor_ok or n not in self.borrowed):
                 cands.append(n)
-            if ty == "q" and t in ("t", "s") and not (n in self.borrowed and False):
+            if ty == "q" and t in ("t", "s", "w"):
+                # leaves of a borrowed aggregate may be consumed too (if refilled before the end)
                 for l, _ in leaves_of(n, t):
                     if l in full:
                         cands.append(l)
+            if ty == "s" and t == "w" and f"{n}.inner.a" in full and f"{n}.inner.b" in full \
+                    and (bor_ok or n not in self.borrowed or self.r.random() < 0.3):
+                cands.append(f"{n}.inner")
         return self.r.choice(cands) if cands else None
 
     def pick_any(self, env, ty):
         cands = [n for n, t in env.items() if t == ty]
         if ty == "q":
             for n, t in env.items():
-                if t in ("t", "s"):
+                if t in ("t", "s", "w"):
                     cands += [l for l, _ in leaves_of(n, t)]
+        if ty == "s":
+            cands += [f"{n}.inner" for n, t in env.items() if t == "w"]
         return self.r.choice(cands) if cands else None
 
     def place(self, env, full, ty, owned_use):
@@ -363,6 +386,8 @@ class Gen:
             a = self.value(env, full, "q")
             b = self.value(env, full, "q")
             return ("call", "S", [a, b])
+        if ty == "w":
+            return ("call", "mk_w", [])
         if ty == "arr":
             p = self.place(env, full, "arr", True) if r < 0.5 else None
             if p:
@@ -586,21 +611,85 @@ class Gen:
             if n in self.borrowed:
                 # give sub-places back
                 for l, k in leaves_of(n, t):
-                    if k == "lin" and l not in full and t == "s" and self.r.random() > self.naughty:
+                    if k == "lin" and l not in full and t in ("s", "w") and self.r.random() > self.naughty:
                         out.append(("assign", [(l, "q")], ("new",)))
                         full.add(l)
                 continue
             ls = [l for l, k in leaves_of(n, t) if k == "lin" and l in full]
             if not ls or self.r.random() < self.naughty:
                 continue
-            if len(ls) == 2 and self.r.random() < 0.5:
-                out.append(("expr", ("call", {"t": "own_t", "s": "own_s"}[t], [("pl", n, t)])))
+            if len(ls) == len(leaves_of(n, t)) and t in ("t", "s", "w") and self.r.random() < 0.5:
+                out.append(("expr", ("call", {"t": "own_t", "s": "own_s", "w": "own_w"}[t], [("pl", n, t)])))
             else:
                 for l in ls:
                     out.append(("expr", ("call", self.r.choice(["discard", "own", "measure"]), [("pl", l, "q")])))
             for l in ls:
                 full.discard(l)
         out.append(("return", rv))
+        return out
+
+    def borrowed_seq(self, env, full):
+        """a leaf (or an intermediate field) of a BORROWED aggregate parameter is consumed / moved and
+        then the enclosing place is used again in the same block -- lent, moved, returned as part of a
+        value, field-projected -- with or without a refill in between"""
+        aggs = [(n, env[n]) for n in sorted(self.borrowed) if env.get(n) in ("s", "t", "w")]
+        if not aggs:
+            return []
+        n, ty = self.r.choice(aggs)
+        out = []
+        # 1. consume something inside
+        if ty == "w" and self.r.random() < 0.35:
+            inner, ity = f"{n}.inner", "s"
+            if all(l in full for l, _ in leaves_of(inner, "s")):
+                out.append(("expr", ("call", "own_s", [("pl", inner, "s")])))
+                self.consume(full, inner, "s")
+            taken = [l for l, _ in leaves_of(inner, "s")]
+        else:
+            ls = [l for l, _ in leaves_of(n, ty) if l in full]
+            if not ls:
+                return []
+            l = self.r.choice(ls)
+            k = self.r.random()
+            if k < 0.6:
+                out.append(("expr", ("call", self.r.choice(["own", "discard", "measure"]), [("pl", l, "q")])))
+            elif k < 0.8:
+                v = self.fresh_var(env, "q", {})
+                if not v or v in full:
+                    return []
+                env[v] = "q"; full.add(v)
+                out.append(("assign", [(v, "q")], ("pl", l, "q")))
+            else:
+                out.append(("expr", ("call", "own", [("call", "thru", [("pl", l, "q")])])))
+            full.discard(l)
+            taken = [l]
+        # 2. refill, or not
+        refill = self.r.random() < 0.5
+        if refill and ty != "t":        # tuple elements cannot be assigned
+            for l in taken:
+                out.append(("assign", [(l, "q")], ("new",) if self.r.random() < 0.7 else ("call", "thru", [("new",)])))
+                full.add(l)
+        # 3. use the enclosing place again
+        k = self.r.random()
+        encl, ety = (n, ty)
+        if ty == "w" and taken[0].startswith(f"{n}.inner") and self.r.random() < 0.5:
+            encl, ety = f"{n}.inner", "s"
+        bor_f = {"s": "bor_s", "t": "bor_t", "w": "bor_w"}[ety]
+        own_f = {"s": "own_s", "t": "own_t", "w": "own_w"}[ety]
+        if k < 0.6:
+            out.append(("expr", ("call", bor_f, [("pl", encl, ety)])))
+        elif k < 0.7:
+            out.append(("expr", ("call", bor_f, [("pl", encl, ety)])))
+            out.append(("expr", ("call", bor_f, [("pl", encl, ety)])))
+        elif k < 0.8:
+            out.append(("expr", ("call", own_f, [("pl", encl, ety)])))      # not owned (or a moved field)
+            self.consume(full, encl, ety)
+        elif k < 0.9:
+            l2 = self.r.choice([l for l, _ in leaves_of(encl, ety)])
+            out.append(("expr", ("call", self.r.choice(["h", "bor"]), [("pl", l2, "q")])))
+        else:
+            l2 = self.r.choice([l for l, _ in leaves_of(encl, ety)])
+            out.append(("expr", ("call", "discard", [("pl", l2, "q")])))
+            full.discard(l2)
         return out
 
     def block(self, env, full, depth, in_loop, in_loop_pre, ret):
@@ -611,6 +700,11 @@ class Gen:
             if self.budget <= 0:
                 break
             self.budget -= 1
+            if self.r.random() < 0.07:
+                seq = self.borrowed_seq(env, full)
+                if seq:
+                    out += seq
+                    continue
             r = self.r.random()
             loopy = self.profile == "loops"
             if in_loop and self.r.random() < (0.16 if loopy else 0.04):
@@ -676,12 +770,16 @@ class Gen:
             params.append(("p", "q", "bor"))
         if r.random() < 0.4:
             params.append(("o", "q", "own"))
-        if r.random() < 0.2:
+        if r.random() < 0.25:
             params.append(("ps", "s", "bor"))
         if r.random() < 0.15:
             params.append(("os", "s", "own"))
-        if r.random() < 0.1:
+        if r.random() < 0.12:
             params.append(("pt", "t", "bor"))
+        if r.random() < 0.15:
+            params.append(("pw", "w", "bor"))
+        if r.random() < 0.05:
+            params.append(("ow", "w", "own"))
         if r.random() < 0.1:
             params.append(("oa", "arr", "own"))
         params.append(("c", "bool", "own"))
